@@ -749,6 +749,14 @@ class DeRename:
                             blocked.add(m.id)
                         if isinstance(m, (ast.Global, ast.Nonlocal)):
                             blocked |= set(m.names)
+        role_map = self._optimiser_roles(fn, stores - params - blocked, present, getattr(self, "_cls", ""))
+        if role_map:
+            for n in ast.walk(fn):
+                if isinstance(n, ast.Name) and n.id in role_map:
+                    n.id = role_map[n.id]
+            self.renamed += len(role_map)
+            stores = {role_map.get(v, v) for v in stores}
+            present = {role_map.get(v, v) for v in present}
         unknown = sorted(v for v in stores if v not in params and v not in blocked and v not in self.vocab and not v.startswith("__"))
         if not unknown:
             return
@@ -770,6 +778,73 @@ class DeRename:
                 n.id = mapping[n.id]
         self.renamed += len(mapping)
 
+    @staticmethod
+    def _optimiser_roles(fn, locals_, present, cls_name=""):
+        """Iterative optimisers (`optimize` methods): locals identified by the ROLE they play, mapped to the names the rules use.
+        x_next = what the result object is built from; x_prev / x_prev_prev = what the shift block at the loop head copies it to;
+        error_values / error_value = the list whose tail is summed for the stopping test and what is appended to it;
+        y_prev = projected point minus the current iterate; the scalar of the gradient term (gamma / delta / mu by algorithm)."""
+        if fn.name != "optimize":
+            return {}
+        out = {}
+
+        def want(actual, canon):
+            if actual and actual != canon and actual in locals_ and canon not in present and actual not in out and canon not in out.values():
+                out[actual] = canon
+        res_args = {n.args[0].id for n in ast.walk(fn) if isinstance(n, ast.Call) and isinstance(n.func, ast.Name) and n.func.id.endswith("Result")
+                    and n.args and isinstance(n.args[0], ast.Name)}
+        R = next(iter(res_args)) if len(res_args) == 1 else None
+        want(R, "x_next")
+        xn = R
+        xp = None
+        if xn:
+            for n in ast.walk(fn):
+                if isinstance(n, ast.If) and isinstance(n.test, ast.Compare) and len(n.test.ops) == 1 and isinstance(n.test.ops[0], ast.IsNot) \
+                        and isinstance(n.test.left, ast.Name) and n.test.left.id == xn:
+                    pairs = []
+                    for a in n.body:
+                        if isinstance(a, ast.Assign) and len(a.targets) == 1:
+                            t, v = a.targets[0], a.value
+                            if isinstance(t, ast.Name) and isinstance(v, ast.Name):
+                                pairs.append((t.id, v.id))
+                            elif isinstance(t, ast.Tuple) and isinstance(v, ast.Tuple) and len(t.elts) == len(v.elts):
+                                pairs += [(x.id, y.id) for x, y in zip(t.elts, v.elts) if isinstance(x, ast.Name) and isinstance(y, ast.Name)]
+                    for t, v in pairs:
+                        if v == xn:
+                            xp = t
+                    for t, v in pairs:
+                        if xp and v == xp:
+                            want(t, "x_prev_prev")
+                    want(xp, "x_prev")
+        # stopping test: np.sum(E[-w:]) and E.append(v)
+        for n in ast.walk(fn):
+            if isinstance(n, ast.Call) and isinstance(n.func, ast.Attribute) and n.func.attr == "sum" and len(n.args) == 1 \
+                    and isinstance(n.args[0], ast.Subscript) and isinstance(n.args[0].value, ast.Name) and isinstance(n.args[0].slice, ast.Slice):
+                E = n.args[0].value.id
+                want(E, "error_values")
+                for c in ast.walk(fn):
+                    if isinstance(c, ast.Call) and isinstance(c.func, ast.Attribute) and c.func.attr == "append" and isinstance(c.func.value, ast.Name) \
+                            and c.func.value.id == E and len(c.args) == 1 and isinstance(c.args[0], ast.Name):
+                        want(c.args[0].id, "error_value")
+        # y_prev: <projection>(...) - x_prev
+        cur = xp or "x_prev"
+        for n in ast.walk(fn):
+            if isinstance(n, ast.Assign) and len(n.targets) == 1 and isinstance(n.targets[0], ast.Name) and isinstance(n.value, ast.BinOp) \
+                    and isinstance(n.value.op, ast.Sub) and isinstance(n.value.right, ast.Name) and n.value.right.id == cur \
+                    and isinstance(n.value.left, ast.Call) and isinstance(n.value.left.func, ast.Attribute) and "proj" in n.value.left.func.attr:
+                want(n.targets[0].id, "y_prev")
+        # the scalar of the gradient term: S * grad(x) / grad(x) * S / grad(x) / S, S bound outside the loop
+        canon = "gamma" if "Momentum" in cls_name else "delta" if "FastIterative" in cls_name else "mu" if "Backtracking" in cls_name else None
+        if canon:
+            for n in ast.walk(fn):
+                if isinstance(n, ast.BinOp) and isinstance(n.op, (ast.Mult, ast.Div)):
+                    for a, b in ((n.left, n.right), (n.right, n.left)):
+                        if isinstance(a, ast.Name) and isinstance(b, ast.Call) and isinstance(b.func, ast.Attribute) and b.func.attr == "gradient":
+                            if isinstance(n.op, ast.Div) and a is n.left:
+                                continue
+                            want(a.id, canon)
+        return out
+
     def run(self, tree: ast.Module) -> ast.Module:
         # outermost functions only: nested functions are renamed together with their enclosing function
         def visit(body):
@@ -777,7 +852,9 @@ class DeRename:
                 if isinstance(st, (ast.FunctionDef, ast.AsyncFunctionDef)):
                     self._function(st)
                 elif isinstance(st, ast.ClassDef):
+                    self._cls = st.name
                     visit(st.body)
+                    self._cls = ""
         visit(tree.body)
         return tree
 
